@@ -49,6 +49,7 @@ type rel struct {
 	joinOwnerCols         []string
 	joinTargetCols        []string
 	single                bool // the field holds one record (pointer or value), not a slice
+	alt                   bool // the relation references the owner-side NON-primary unique key k
 }
 
 func (r *rel) composite() bool { return len(r.ownerCols) > 1 }
@@ -93,6 +94,7 @@ type world struct {
 var fieldOf = map[string]string{
 	"u": "U", "v": "V", "a": "A", "b": "B", "boss_a": "BossA", "boss_b": "BossB", "own_a": "OwnA", "own_b": "OwnB",
 	"node_a": "NodeA", "node_b": "NodeB", "ta": "TA", "tb": "TB", "owner_id": "OwnerID", "owner_type": "OwnerType", "n": "N",
+	"k": "K", "alt_k": "AltK",
 }
 
 func mkModel(v interface{}, soft bool, cols ...string) *model {
@@ -135,8 +137,8 @@ func mkWorld(name string, kinds []kind, node, item, card, tag, pic interface{}) 
 	own := suffixed("own_", n)
 	nodeFK := suffixed("node_", n)
 	tkey := suffixed("t", n)
-	w.node = mkModel(node, true, append(append(append([]string{"u"}, key...), append([]string{"v"}, boss...)...), "n")...)
-	w.item = mkModel(item, true, append(append([]string{"u"}, own...), "v", "n")...)
+	w.node = mkModel(node, true, append(append(append([]string{"u"}, key...), append([]string{"v"}, boss...)...), "n", "k")...)
+	w.item = mkModel(item, true, append(append([]string{"u"}, own...), "v", "n", "alt_k")...)
 	w.card = mkModel(card, true, append(append([]string{"u"}, nodeFK...), "v", "n")...)
 	w.tag = mkModel(tag, true, append(append([]string{"u"}, tkey...), "v", "n")...)
 	w.models = []*model{w.node, w.item, w.card, w.tag}
@@ -150,9 +152,12 @@ func mkWorld(name string, kinds []kind, node, item, card, tag, pic interface{}) 
 		{name: "Card", kind: hasOne, owner: w.node, target: w.card, ownerCols: key, targetCols: nodeFK, single: true},
 		{name: "Tags", kind: many2many, owner: w.node, target: w.tag, ownerCols: key, targetCols: tkey,
 			joinTable: w.joinTable, joinOwnerCols: suffixed("node_", n), joinTargetCols: suffixed("tag_t", n)},
+		// relations that reference the non-primary unique key k
+		{name: "Extra", kind: hasMany, owner: w.node, target: w.item, ownerCols: []string{"k"}, targetCols: []string{"alt_k"}, alt: true},
 	}
 	w.item.rels = []*rel{
 		{name: "Owner", kind: belongsTo, owner: w.item, target: w.node, ownerCols: own, targetCols: key, single: true},
+		{name: "Patron", kind: belongsTo, owner: w.item, target: w.node, ownerCols: []string{"alt_k"}, targetCols: []string{"k"}, single: true, alt: true},
 	}
 	if pic != nil {
 		w.pic = mkModel(pic, false, "u", "owner_id", "owner_type", "v", "n")
@@ -161,7 +166,11 @@ func mkWorld(name string, kinds []kind, node, item, card, tag, pic interface{}) 
 		w.node.rels = append(w.node.rels, &rel{name: "Pics", kind: polyMany, owner: w.node, target: w.pic,
 			ownerCols: key, targetCols: []string{"owner_id"}, polyCol: "owner_type", polyVal: "node"},
 			&rel{name: "Logo", kind: polyOne, owner: w.node, target: w.pic,
-				ownerCols: key, targetCols: []string{"owner_id"}, polyCol: "owner_type", polyVal: "logo", single: true})
+				ownerCols: key, targetCols: []string{"owner_id"}, polyCol: "owner_type", polyVal: "logo", single: true},
+			&rel{name: "Shots", kind: polyMany, owner: w.node, target: w.pic,
+				ownerCols: []string{"k"}, targetCols: []string{"owner_id"}, polyCol: "owner_type", polyVal: "shot", alt: true},
+			&rel{name: "Seal", kind: polyOne, owner: w.node, target: w.pic,
+				ownerCols: []string{"k"}, targetCols: []string{"owner_id"}, polyCol: "owner_type", polyVal: "seal", single: true, alt: true})
 	}
 	return w
 }
